@@ -50,9 +50,9 @@ def adversarial(rng):
     sensitivity): {(0,0,0)} + 3 x (0,1,0) + 3 x (1,0,1); moving (0,0,0) -> (1,0,0) raises the (a,b) error by 2 and lowers (a,c) by 2."""
     recs = [[0, 0, 0]] + [[0, 1, 0]] * 3 + [[1, 0, 1]] * 3
     out = []
-    for bounded in (True, False):
-        for noise in ("gaussian", "laplace"):
-            p = {"epsilon": 1.0, "delta": 0.0 if noise == "laplace" else 1e-6, "noise": noise, "bounded": bounded, "rounds": 1, "alpha": 0.5}
+    for bounded, noise, alpha in [(b, n, a) for b in (True, False) for n in ("gaussian", "laplace") for a in (0.5, 0.9)]:
+        if True:
+            p = {"epsilon": 1.0, "delta": 0.0 if noise == "laplace" else 1e-6, "noise": noise, "bounded": bounded, "rounds": 1, "alpha": alpha}
             out.append({"mech": "MWEM", "params": p, "attrs": ["a", "b", "c"], "sizes": [2, 2, 2], "records": [list(r) for r in recs],
                         "seed": rng.randrange(10 ** 6), "all_neighbours": True, "forced_neighbours": [("replace#0->(1, 0, 0)", [[1, 0, 0]] + [list(r) for r in recs[1:]])] if bounded
                         else [("remove#0", [list(r) for r in recs[1:]]), ("add(1, 0, 0)", [list(r) for r in recs] + [[1, 0, 0]])]})
@@ -131,12 +131,13 @@ def pair_job(job):
     res["out_domain"] = [list(out1.domain.attrs), list(out1.domain.shape)]
     res["out_rows"] = len(out1.df)
     sens2 = 2.0 if (name == "MWEM" and p.get("bounded")) else 1.0
-    for label, recs2 in nbrs:
-        ip2 = R.Interposer(sc["seed"], replay=ip.events)
-        out2, err2 = M.run_mechanism(name, p, recs2, sc["attrs"], sc["sizes"], ip2)
+    def compare(label, evA, outA, evB, outB, err2, base=None):
+        """One pair of executions that observed identical releases and selections: C06 observables and C05 ledger."""
         pr = {"label": label, "err2": err2}
-        e1 = [e for e in ip.events if e["e"] != "Post"]
-        e2 = [e for e in ip2.events if e["e"] != "Post"]
+        if base is not None:
+            pr["base_records"] = base
+        e1 = [e for e in evA if e["e"] != "Post"]
+        e2 = [e for e in evB if e["e"] != "Post"]
         # ---- C06 observables
         diffs = []
         if len(e1) != len(e2):
@@ -151,13 +152,13 @@ def pair_job(job):
                     diffs.append("release %d: %d cells vs %d" % (i, a["x"].size, b["x"].size)); break
             elif len(a["p"]) != len(b["p"]):
                 diffs.append("selection %d: %d candidates vs %d" % (i, len(a["p"]), len(b["p"]))); break
-        posts1 = [e["fn"] for e in ip.events if e["e"] == "Post"]
-        posts2 = [e["fn"] for e in ip2.events if e["e"] == "Post"]
+        posts1 = [e["fn"] for e in evA if e["e"] == "Post"]
+        posts2 = [e["fn"] for e in evB if e["e"] == "Post"]
         if not err2:
             if posts1 != posts2:
                 diffs.append("post-processing randomness consumed differently (%d vs %d draws)" % (len(posts1), len(posts2)))
-            if out2 is None or not out1.df.reset_index(drop=True).equals(out2.df.reset_index(drop=True)):
-                diffs.append("returned synthetic data differ (%s vs %s rows)" % (len(out1.df), None if out2 is None else len(out2.df)))
+            if outB is None or not outA.df.reset_index(drop=True).equals(outB.df.reset_index(drop=True)):
+                diffs.append("returned synthetic data differ (%s vs %s rows)" % (len(outA.df), None if outB is None else len(outB.df)))
         pr["c06_diffs"] = diffs
         ni = []
         for a, b in zip(e1, e2):
@@ -168,11 +169,14 @@ def pair_job(job):
                        "scale_bits_equal": bool(sa == sb), "n1": int(len(a["x"]) if a["e"] == "Release" else len(a["p"])),
                        "n2": int(len(b["x"]) if b["e"] == "Release" else len(b["p"]))})
         ni.append({"k": "Out", "nprim1": len(e1), "nprim2": len(e2), "posts_equal": bool(posts1 == posts2),
-                   "same_output": bool(out2 is not None and out1.df.reset_index(drop=True).equals(out2.df.reset_index(drop=True))),
-                   "domain_attrs": list(out1.domain.attrs), "domain_shape": [int(v) for v in out1.domain.shape]})
+                   "same_output": bool(outB is not None and outA.df.reset_index(drop=True).equals(outB.df.reset_index(drop=True))),
+                   "domain_attrs": list(outA.domain.attrs), "domain_shape": [int(v) for v in outA.domain.shape]})
         pr["ni_events"] = ni
         # ---- C05 ledger
-        costs = M.ledger(ip.events, ip2.events, mode)
+        costs = M.ledger(evA, evB, mode)
+        if err2 and err2.startswith("diverged"):
+            # the second run asked for another primitive than the first: which primitives run depends on the data, uncharged
+            costs.append({"e": "Select", "diverged": err2, "eta": math.inf, "maxabs": math.inf, "cost": math.inf})
         events = []
         for c in costs:
             if c["e"] == "Release":
@@ -189,16 +193,98 @@ def pair_job(job):
         pr["worst"] = max(costs, key=lambda c: c["cost"], default=None)
         if pr["worst"]:
             pr["worst"] = {k: v for k, v in pr["worst"].items()}
-        res["pairs"].append(pr)
+        return pr
+
+    for label, recs2 in nbrs:
+        ip2 = R.Interposer(sc["seed"], replay=ip.events)
+        out2, err2 = M.run_mechanism(name, p, recs2, sc["attrs"], sc["sizes"], ip2)
+        res["pairs"].append(compare(label, ip.events, out1, ip2.events, out2, err2))
+    # ---- a far dataset reached through a path of neighbours, every one replaying D's observations: if the far end behaves
+    # differently, so do two ADJACENT datasets on the path (both observing identical releases) - that pair is reported
+    path = sc.get("path") or []
+    if path:
+        prev_ev, prev_out, prev_recs = ip.events, out1, sc["records"]
+        for i, recs_i in enumerate(path):
+            ipi = R.Interposer(sc["seed"], replay=ip.events)
+            outi, erri = M.run_mechanism(name, p, recs_i, sc["attrs"], sc["sizes"], ipi)
+            pr = compare("path step %d of %d towards a far dataset" % (i + 1, len(path)), prev_ev, prev_out, ipi.events, outi, erri, base=prev_recs)
+            pr["neighbour_records"] = recs_i
+            if pr["c06_diffs"] or erri:
+                pr["on_path"] = True
+                res["pairs"].append(pr)
+                break
+            prev_ev, prev_out, prev_recs = ipi.events, outi, recs_i
+        res["path_len"] = len(path)
+    # ---- growth: D plus k copies of one record. Checked at the far end first; only if that differs, bisect for an adjacent pair
+    grow = sc.get("grow")
+    if grow:
+        rec, k = grow
+        def run_at(i):
+            ipi = R.Interposer(sc["seed"], replay=ip.events)
+            recs_i = [list(r) for r in sc["records"]] + [list(rec)] * i
+            outi, erri = M.run_mechanism(name, p, recs_i, sc["attrs"], sc["sizes"], ipi)
+            return recs_i, ipi.events, outi, erri
+        recs_k, ev_k, out_k, err_k = run_at(k)
+        pr = compare("D plus %d copies of %s" % (k, rec), ip.events, out1, ev_k, out_k, err_k)
+        res["grow_checked"] = k
+        if pr["c06_diffs"] or err_k:
+            lo, hi = 0, k                      # behaviour at lo equals D's, behaviour at hi differs
+            cache = {0: (sc["records"], ip.events, out1, None), k: (recs_k, ev_k, out_k, err_k)}
+            while hi - lo > 1:
+                mid = (lo + hi) // 2
+                cache[mid] = run_at(mid)
+                prm = compare("", ip.events, out1, cache[mid][1], cache[mid][2], cache[mid][3])
+                if prm["c06_diffs"] or cache[mid][3]:
+                    hi = mid
+                else:
+                    lo = mid
+            ra, eva, outa, _ = cache[lo]
+            rb, evb, outb, errb = cache[hi]
+            pr = compare("add%s to D plus %d copies of it" % (tuple(rec), lo), eva, outa, evb, outb, errb, base=[list(r) for r in ra])
+            pr["neighbour_records"] = [list(r) for r in rb]
+            pr["on_path"] = True
+            res["pairs"].append(pr)
     return res
 
 
-def run_all(scs, nbr_limit, rng, procs=16):
+def far_path(sc, adj, rng):
+    """A dataset far from sc['records'] and a path of neighbouring datasets leading to it."""
+    import itertools as it
+    cells = list(it.product(*[range(n) for n in sc["sizes"]]))
+    D = [list(r) for r in sc["records"]]
+    if adj == "replace":
+        F = [list(rng.choice(cells)) for _ in D]
+        path, cur = [], [list(r) for r in D]
+        for i in range(len(D)):
+            if cur[i] != F[i]:
+                cur = cur[:i] + [F[i]] + cur[i + 1:]
+                path.append([list(r) for r in cur])
+        return path
+    hot = list(rng.choice(cells))
+    F = [hot if rng.random() < 0.6 else list(rng.choice(cells)) for _ in range(rng.choice([2, 5, 9]))]
+    path, cur = [], [list(r) for r in D]
+    while cur:
+        cur = cur[:-1]
+        path.append([list(r) for r in cur])
+    for r in F:
+        cur = cur + [r]
+        path.append([list(r_) for r_ in cur])
+    return path
+
+
+def run_all(scs, nbr_limit, rng, procs=16, far=False):
     jobs = []
     for sc in scs:
         adj = "replace" if (sc["mech"] == "MWEM" and sc["params"].get("bounded")) else "addremove"
-        nb = M.neighbours(sc["records"], sc["sizes"], adj, rng, limit=None if sc.get("all_neighbours") else nbr_limit)
-        nb = list(sc.get("forced_neighbours", [])) + [x for x in nb if x[0] not in {f[0] for f in sc.get("forced_neighbours", [])} and not sc.get("only_forced")]
+        if far and not sc.get("only_forced"):
+            if not sc.get("wide") and len(sc["records"]) <= 12:
+                sc["path"] = far_path(sc, adj, rng)
+            if adj == "addremove":
+                import itertools as it
+                cells = list(it.product(*[range(n) for n in sc["sizes"]]))
+                sc["grow"] = sc.get("grow") or (list(rng.choice(cells)), rng.choice([40, 400]))
+        nb = M.neighbours(sc["records"], sc["sizes"], adj, rng, limit=None if sc.get("all_neighbours") else (2 if sc.get("wide") else nbr_limit))
+        nb = list(sc.get("forced_neighbours", [])) + [x for x in nb if x[0] not in {f[0] for f in sc.get("forced_neighbours", [])} and not sc.get("only_forced") and not sc.get("only_forced_nb")]
         jobs.append((sc, nb))
     with multiprocessing.get_context("fork").Pool(procs) as pool:
         results = pool.map(pair_job, jobs, chunksize=1)
